@@ -92,11 +92,81 @@ def record(force=False):
 
 
 # --------------------------------------------------------------------------------------
+# the decoder written ONLY from the layout comment of binary_output.py (notes/probes/independent_trib_decoder.py,
+# reading phase, never edited to follow the reader): run on every file the implementation writes and on the history
+# --------------------------------------------------------------------------------------
+
+def _load_independent():
+    import importlib.util
+    path = os.path.join(common.ROOT, "notes", "probes", "independent_trib_decoder.py")
+    spec = importlib.util.spec_from_file_location("independent_trib_decoder", path)
+    mod = importlib.util.module_from_spec(spec)
+    spec.loader.exec_module(mod)
+    return mod.decode
+
+
+INDEPENDENT_DECODE = _load_independent()
+
+
+def independent_dump(data):
+    """(pool, raw dump in the form of c05.raw_cells(strict=True)) as the independent decoder reads the bytes"""
+    pool, cells = INDEPENDENT_DECODE(data)
+    out = []
+    for m, ps, pe, ev, prev, vals, meta in cells:
+        rb, co, cu, re_, ld, lim, det, ldet = meta
+        out.append({"k": {0x11: "C", 0x12: "U", 0x13: "I"}[m], "ps": c05.raw_date(ps), "pe": c05.raw_date(pe),
+                    "ev": c05.raw_date(ev), "prev": None if prev is None else c05.raw_date(prev),
+                    "v": c05.raw_dict(vals),
+                    "m": {"rb": c05.hs(rb), "co": c05.hs(co), "cu": c05.hs(cu), "re": c05.hs(re_), "ld": c05.hs(ld),
+                          "lim": None if lim is None else __import__("struct").pack("<d", lim).hex(),
+                          "det": c05.raw_dict(det), "ldet": c05.raw_dict(ldet)}})
+    return pool, out
+
+
+def independent_check(ctx, case, data, d):
+    """the independent decoder recovers exactly what from_binary returned (which the Spec judges against what was
+    written); the pool it reads is the documented one: strictly ascending keys, an empty placeholder exactly in the
+    slots whose low byte is DICT_END"""
+    ctx.count("independent-decoder/files")
+    st, res = xcall(independent_dump, data)
+    if st != "ok":
+        ctx.fail("the decoder written from the layout description cannot read a file written by to_binary", case,
+                 {"error": res, "file": data.hex() if len(data) < 100000 else f"{len(data)} bytes"})
+        return
+    pool, cells = res
+    keys = [s_ for i, s_ in enumerate(pool) if i % 256 != 0x88]
+    if any(pool[i] != "" for i in range(len(pool)) if i % 256 == 0x88) or \
+            any(a is None or b is None or not a.encode() < b.encode() for a, b in zip(keys, keys[1:])):
+        ctx.fail("string pool of the file is not the documented one (sorted keys, empty placeholder at slots 0x88 mod 256)",
+                 case, {"pool": pool[:400]})
+    if d[0] == "ok" and cells != d[1]:
+        i = next((i for i, (a, b) in enumerate(zip(cells, d[1])) if a != b), min(len(cells), len(d[1])))
+        ctx.fail("the decoder written from the layout description reads another triangle than from_binary", case,
+                 {"first_differing_cell": i, "independent": cells[i:i + 1], "from_binary": d[1][i:i + 1],
+                  "n_independent": len(cells), "n_from_binary": len(d[1])})
+
+
+# --------------------------------------------------------------------------------------
 # the check
 # --------------------------------------------------------------------------------------
 
+def golden_literals_match(ctx):
+    """the byte literals of lean/Bermuda/Lemmas/CodecGolden.lean (theorems C06.golden_*: decode bytes = recorded cells,
+    encode cells = bytes) ARE the sha256-pinned corpus files"""
+    import re
+    src = open(os.path.join(common.LEAN, "Bermuda", "Lemmas", "CodecGolden.lean")).read()
+    for ident in ("missing_cells", "missing_eval", "meyers", "holey_init_tri"):
+        m = re.search(r"def %sBytes : Bytes :=\s*\[([0-9,\s]*)\]" % ident, src)
+        data = open(os.path.join(GOLDEN, ident + ".trib"), "rb").read()
+        if not m or bytes(int(x) for x in m.group(1).replace("\n", " ").split(",")) != data:
+            raise common.Infra(f"Lemmas/CodecGolden.lean: literal {ident}Bytes is not corpus/golden/{ident}.trib "
+                               "(regenerate with harness/c06_golden_lean.py)")
+        ctx.count("history/golden-literal-in-theorem = corpus file")
+
+
 def history(ctx, drv, scratch):
     """files written in the past keep decoding to their recorded contents"""
+    golden_literals_match(ctx)
     items = []
     for rel in SHIPPED:
         name = os.path.basename(rel)
@@ -146,6 +216,7 @@ def history(ctx, drv, scratch):
                 ctx.fail("to_binary(from_binary(f)) differs from the bytes of f (layout changed)", case,
                          {"first_diff_offset": next((i for i, (a, b) in enumerate(zip(again, data)) if a != b), min(len(again), len(data))),
                           "len_now": len(again), "len_recorded": len(data)})
+        independent_check(ctx, case, data, ("ok", pinned["cells"]))
         reqs.append({"op": "decode", "hex": data.hex(), "impl": pinned["cells"]})
         infos.append((case, data, pinned))
     for (case, data, pinned), out in zip(infos, drv.run(reqs)):
@@ -227,6 +298,7 @@ def correspondence(ctx):
         return
     drv = common.Driver("drv_c06")
     c05.ensure_tables(ctx, "drv_c06", "Bermuda.Properties.C06")
+    c05.FILE_HOOK = independent_check
     with Scratch() as scratch:
         history(ctx, drv, scratch)
         n = 500 if ctx.thorough else 60
